@@ -9,8 +9,11 @@ import (
 	"time"
 
 	tssCommon "github.com/binance-chain/tss-lib/common"
+	"github.com/libp2p/go-libp2p/core/host"
+	"github.com/libp2p/go-libp2p/core/peer"
 	"github.com/rs/zerolog"
 
+	"github.com/ChainSafe/sygma-relayer/keyshare"
 	"github.com/ChainSafe/sygma-relayer/tss/ecdsa/common"
 )
 
@@ -115,4 +118,14 @@ func VerifProcessEndChan(coordinator bool, sig tssCommon.SignatureData, cap int,
 	close(stop)
 	<-readerDone
 	return got, returned
+}
+
+// VerifValidCoordinators = the real ValidCoordinators of a signing process whose host is h and whose
+// stored key share lists keyPeers as its committee.
+func VerifValidCoordinators(h host.Host, keyPeers []peer.ID) []peer.ID {
+	s := &Signing{
+		BaseTss: common.BaseTss{Host: h, Log: zerolog.Nop(), Cancel: func() {}},
+		key:     keyshare.ECDSAKeyshare{Peers: append([]peer.ID(nil), keyPeers...)},
+	}
+	return s.ValidCoordinators()
 }
